@@ -478,7 +478,7 @@ def c19(ctx):
         quick = ctx.tier == "quick" or ctx.budget_s
         runs = run_sharded(ctx, "c19", 8 if ctx.tier == "quick" else 16,
                            lambda i: ["-seed", str(ctx.seed * 1000 + i), "-n", "2" if quick else "6", "-maxmut", "150" if quick else "400", "-dir", "{dir}"],
-                           ctx.budget_s or (900 if ctx.tier == "quick" else 3300))
+                           ctx.budget_s or (900 if ctx.tier == "quick" else 3300), env={"BBOLT_EXE": C.bbolt_exe()})
         for r in runs:
             absorb(res, "C19", *r)
     return res
